@@ -18,10 +18,12 @@ import looppatch
 VERIF = os.path.dirname(os.path.dirname(os.path.abspath(__file__)))
 REPO = os.environ.get('VERIF_REPO', '/repo')
 UNITS_DIR = os.path.join(VERIF, 'units')
-EVID = os.path.join(VERIF, 'evidence')
+EVID = os.environ.get('VERIF_EVIDENCE_DIR') or os.path.join(VERIF, 'evidence')
 KNOWN = os.path.join(VERIF, 'known_findings.json')
 
 DEFAULT_REPLACE = ['zck_hash_name_from_type', 'zck_comp_name_from_type']
+# libc functions whose CBMC loop models are replaced by assumed contracts when the unit includes stubs/libc_mem.h
+MEM_REPLACE = ['memcmp', 'strncmp']
 BASE_CHECKS = ['--bounds-check', '--pointer-check', '--div-by-zero-check',
                '--signed-overflow-check', '--undefined-shift-check',
                '--pointer-primitive-check']
@@ -47,7 +49,17 @@ def load_units():
                             if k != 'defaults_for_file':
                                 u.setdefault(k, v)
                 u.setdefault('_defined_in', fn)
-                units.append(u)
+                # case split into variants (e.g. one per checksum type): each variant is its own unit
+                if u.get('variants'):
+                    for v in u['variants']:
+                        uv = dict(u)
+                        uv.pop('variants')
+                        uv['name'] = u['name'] + '.' + v['suffix']
+                        uv['defines'] = list(u.get('defines', [])) + list(v.get('defines', []))
+                        uv['variant_of'] = u['name']
+                        units.append(uv)
+                else:
+                    units.append(u)
     names = [u['name'] for u in units]
     assert len(names) == len(set(names)), "duplicate unit names"
     return units
@@ -146,6 +158,13 @@ def instrument(unit, scratch, gb, cover=False):
     for g in DEFAULT_REPLACE:
         if g not in repl and g not in enf and re.search(r'^Symbol\.*: ' + g + r'$', symtxt, flags=re.M):
             repl.append(g)
+    try:
+        if 'stubs/libc_mem.h' in open(os.path.join(VERIF, unit['file'])).read():
+            for g in MEM_REPLACE:
+                if g not in repl and re.search(r'^Symbol\.*: ' + g + r'$', symtxt, flags=re.M):
+                    repl.append(g)
+    except Exception:
+        pass
     unit['_replace_effective'] = repl
     for g in repl:
         cmd += ['--replace-call-with-contract', g]
@@ -357,11 +376,12 @@ def run_unit(unit, tier, keep=False, verbose=False):
         timeout = unit.get('timeout', 600)
         if tier == 'thorough':
             timeout = unit.get('timeout_thorough', timeout * 3)
-        mem = unit.get('mem_gb', 12)
+        mem = unit.get('mem_gb', 8)
         checks = list(BASE_CHECKS)
         for c in unit.get('drop_checks', []):
             checks.remove(c)
-        cmd = ['cbmc', gb2] + checks + unit.get('cbmc_flags', []) + \
+        extra = os.environ.get('VERIF_CBMC_EXTRA', '').split()
+        cmd = ['cbmc', gb2] + checks + unit.get('cbmc_flags', []) + extra + \
               ['--unwind', str(unit.get('unwind', 70)), '--unwinding-assertions',
                '--object-bits', str(unit.get('object_bits', 12))]
         if uws:
@@ -440,6 +460,23 @@ def run_unit(unit, tier, keep=False, verbose=False):
             if cov['status'] != 'OK' and res['status'] == 'OK':
                 res['status'] = 'UNDECIDED'
                 res['why'] = cov['why']
+        # second phase, only after a failure: re-run with the input ties switched on so that the
+        # counterexample's buffer bytes are part of the input record (replayable)
+        fails = [o for o in obs if o['status'] == 'FAILURE']
+        if fails and not unit.get('_tied'):
+            try:
+                has_tie = 'V_TIE' in open(os.path.join(VERIF, unit['file'])).read()
+            except Exception:
+                has_tie = False
+            if has_tie:
+                u2 = dict(unit, defines=list(unit.get('defines', [])) + ['VERIF_TIE'], covers=False, _tied=True)
+                u2.pop('_npost', None)
+                r2 = run_unit(u2, tier, keep=False)
+                bykey = {o['key']: o for o in r2['obligations'] if o['status'] == 'FAILURE' and o.get('trace')}
+                for o in fails:
+                    if o['key'] in bykey:
+                        o['trace'] = bykey[o['key']]['trace']
+                        o['tied'] = True
         return res
     finally:
         res['wall_s'] = time.time() - t0
@@ -566,7 +603,10 @@ def extract_inputs(trace, harness):
             continue
         var, rest = m.group(1), m.group(2)
         if not rest:
-            vals[var] = json.loads(json.dumps(st.get('value')))
+            v0 = st.get('value') or {}
+            if v0.get('name') == 'pointer' or ('members' not in v0):
+                continue      # a parameter named like the record (pointer to it), not the record
+            vals[var] = json.loads(json.dumps(v0))
         elif var in vals:
             path = []
             for tok in re.findall(r'\.(\w+)|\[(\d+)l?\]', rest):
